@@ -24,7 +24,8 @@ def project_sched(log):
     o_nb = log.off("ABTI_pool", "num_blocked")
     out = ["init"]
     switching = {}       # tid -> unit that is switching away (its callback runs next on this tid)
-    resumed_on = {}      # tid -> unit most recently resumed by this OS thread (for the matching fetch_sub)
+    resumed_on = {}      # tid -> stack of units resumed by this OS thread whose fetch_sub has not been seen yet (a
+                         # resume_exit_to resumes its target, then the exiting unit's joiner, and decrements in reverse order)
     pending_dec = {}     # tid -> pool of a fetch_sub seen before the resume event it belongs to
     last_cb = {}         # tid -> kind of the callback running on this OS thread
     known = set()        # units whose creation is in the log (others, e.g. scheduler ULTs, are not modelled)
@@ -95,13 +96,13 @@ def project_sched(log):
                 last_cb[tid] = k
                 in_cb[tid] = True
                 if k == 38:
-                    nxt = resumed_on.get(tid)
+                    nxt = (resumed_on.get(tid) or [None])[-1]
                     cb38[tid] = [u, nxt if isinstance(nxt, int) else None, False]
                 if u is not None:
                     emit("cb %d %d %s" % (tid, u, CB_KIND[k]))
             elif k == 10:
                 u = uid(ev["p1"])
-                resumed_on[tid] = u if (u is not None and u in known) else ev["p1"]
+                resumed_on.setdefault(tid, []).append(u if (u is not None and u in known) else ev["p1"])
                 if u is not None and u in known:
                     emit("resume %d" % u)
                 if tid in pending_dec:
@@ -110,7 +111,8 @@ def project_sched(log):
                         emit("decB %d %d" % (u, p))
                     else:
                         extra[p] = extra.get(p, 0) - 1
-                    resumed_on.pop(tid, None)
+                    if resumed_on.get(tid):
+                        resumed_on[tid].pop()
             elif k == 60:
                 u = uid(ev["p1"])
                 if u is not None:
@@ -128,7 +130,8 @@ def project_sched(log):
                 if c and ev["a"] == 2 and c[0] == u and c[1] is not None and not c[2] and c[1] in known and u in known:
                     # resume_suspend_to inside one pool: no counter update, the resumed unit's count passes to the caller
                     emit("xferB %d %d" % (c[1], u))
-                    resumed_on.pop(ev["tid"], None)
+                    if resumed_on.get(ev["tid"]):
+                        resumed_on[ev["tid"]].pop()
                 emit("setSt %d %d" % (u, ev["a"]))
             elif u is not None and off == o_req and op == "for" and ev["a"] in REQ:
                 emit("reqSet %d %s" % (u, REQ[ev["a"]]))
@@ -158,7 +161,7 @@ def project_sched(log):
                     else:
                         extra[p] = extra.get(p, 0) + 1
                 else:
-                    u = resumed_on.pop(tid, None)
+                    u = resumed_on[tid].pop() if resumed_on.get(tid) else None
                     if u is None and last_cb.get(tid) == 35 and switching.get(tid) is not None:
                         u = switching[tid]        # ABT_thread_yield_to: the caller's own credit is returned by its callback
                     if u is None:
@@ -221,6 +224,10 @@ def project_join(log):
         seen_t.add(tname)
         lines = ["new"]
         junit = None
+        jfutex = None
+        j_is_ult = True
+        ext_resumed = False
+        t_term = False
         jtid = None
         in_join = False
         t_exiting = False      # the target's exit path has begun (finish / cancellation): its link loads count
@@ -235,8 +242,8 @@ def project_join(log):
                     if done:
                         res.append((tname, lines))
                     lines = ["new"]
-                    junit = jtid = t_tid = None
-                    in_join = t_exiting = done = False
+                    junit = jtid = t_tid = jfutex = None
+                    in_join = t_exiting = done = t_term = False
                 alive = True          # (re)creation of the descriptor named tname
                 continue
             if not alive:
@@ -246,12 +253,28 @@ def project_join(log):
                 if txt[0] == "apiCall" and txt[1] == "join" and len(txt) >= 4 and txt[3] == tname:
                     junit = ev["unit"]
                     jtid = ev["tid"]
+                    jfutex = None
                     in_join = True
-                    lines.append("jCall %d" % (0 if junit == "-" else 1))
+                    jk = txt[4] if len(txt) >= 5 else ("ext" if junit == "-" else "ult")
+                    j_is_ult = (jk == "ult")
+                    ext_resumed = False
+                    lines.append("jCall %d" % (1 if jk == "ult" else 0))
                 elif txt[0] == "apiRet" and txt[1] == "join" and len(txt) >= 4 and txt[3] == tname:
                     in_join = False
                     lines.append("jRet")
                     done = True
+            elif t == "W":
+                # futex wake by the exiting target: the external / tasklet joiner sleeping on its private futex is resumed
+                # (the joiner may not be asleep yet: the wake then finds nobody and the changed futex word keeps the joiner
+                # from sleeping; the private futex is known from the joiner's sleep, or it is the wake that follows the
+                # target's load of the link of a non-ULT joiner)
+                if ev["kind"] == "futex" and t_exiting and not t_term and ev["tid"] == t_tid and in_join and not j_is_ult and \
+                        (jfutex is None or ev["obj"] == jfutex) and not ext_resumed:
+                    lines.append("tResume")
+                    ext_resumed = True
+            elif t == "B":
+                if ev["kind"] == "futex" and in_join and ev["tid"] == jtid and jfutex is None:
+                    jfutex = ev["obj"]
             elif t == "E":
                 k = ev["kind"]
                 if k == 6 and ev["p1"] == tname:
@@ -259,8 +282,9 @@ def project_join(log):
                         lines.append("tExit")
                     t_exiting = True
                     t_tid = ev["tid"]
-                elif k == 10 and t_exiting and ev["tid"] == t_tid and junit is not None and ev["p1"] == junit:
-                    lines.append("tResume")
+                elif k == 10 and t_exiting and not t_term and ev["tid"] == t_tid and junit is not None and ev["p1"] == junit:
+                    lines.append("tResume")   # (after its TERMINATED store the target resumes nobody: later resumptions of
+                                              # the same joiner on this OS thread belong to other targets)
                 elif k == 3 and ev["p1"] == tname:
                     break              # freed: the name may be reused by another unit
             elif t == "A":
@@ -288,6 +312,7 @@ def project_join(log):
                 elif name == tname and off == o_state:
                     if op == "store" and ev["a"] == 3:
                         lines.append("tStoreTerminated")
+                        t_term = True
                     elif op == "load" and in_join and ev["unit"] == junit:
                         lines.append("jLoadState %d" % (1 if ev["cur"] == 3 else 0))
                 elif in_join and junit and name == junit and off == o_state and op == "store" and ev["a"] == 2:
